@@ -194,12 +194,45 @@ class Arr:
         else:
             self.data[i] = v
 
+    _WRAP = {'uint32': (0, 2 ** 32), 'int32': (-2 ** 31, 2 ** 32), 'uint8': (0, 2 ** 8), 'int8': (-2 ** 7, 2 ** 8), 'int16': (-2 ** 15, 2 ** 16), 'uint16': (0, 2 ** 16)}
+
+    def _wrapv(self, v, dtype):
+        """fixed-width integer arrays wrap around on overflow (numpy semantics)"""
+        w = Arr._WRAP.get(dtype)
+        if w is None or isinstance(v, (SBool, bool, SReal, float)):
+            return v
+        lo, size = w
+        if isinstance(v, int):
+            return (v - lo) % size + lo
+        if isinstance(v, SInt) and (v.lo < lo or v.hi >= lo + size):
+            return SInt.mk((v.e - lo) % size + lo, lo, lo + size - 1)
+        return v
+
     def _zip(self, o, f, dtype=None):
+        dt = dtype or self.dtype
         if isinstance(o, Arr):
             if len(o.data) != len(self.data):
                 raise ValueError('operands could not be broadcast together')
-            return Arr([f(a, b) for a, b in zip(self.data, o.data)], dtype or self.dtype)
-        return Arr([f(a, o) for a in self.data], dtype or self.dtype)
+            return Arr([self._wrapv(f(a, b), dt) for a, b in zip(self.data, o.data)], dt)
+        return Arr([self._wrapv(f(a, o), dt) for a in self.data], dt)
+
+    def __mod__(self, o):
+        return self._zip(o, lambda a, b: a % b)
+
+    def __floordiv__(self, o):
+        return self._zip(o, lambda a, b: a // b)
+
+    def min(self, *a, **k):
+        return min(self)
+
+    def max(self, *a, **k):
+        return max(self)
+
+    def sum(self, *a, **k):
+        return sum(self)
+
+    def argsort(self, *a, **k):
+        return argsort(self)
 
     def __eq__(self, o):
         return self._zip(o, lambda a, b: a == b, 'bool')
